@@ -630,7 +630,10 @@ class SqlImpl(TableImpl):
             union_cache = Cache.from_ast(nd)
             for uid in left_select:
                 dtype = types.without_const(union_cache.cols[uid].dtype())
-                if isinstance(sqa_expr[uid].type, sqa.types.NullType) and dtype != NullType():
+                left_type = sqa_expr[uid].type
+                if (isinstance(left_type, sqa.types.NullType) and dtype != NullType()) or (
+                    isinstance(left_type, sqa.types.Integer) and dtype.is_float()
+                ):
                     sqa_expr[uid] = sqa.label(
                         sqa_expr[uid].name, sqa.type_coerce(table.columns[sqa_expr[uid].name], cls.sqa_type(dtype))
                     )
